@@ -118,6 +118,12 @@ theorem leafEvs_use (l : Leaf) : (leafEvs l).filterMap Ev.use? = l.uses := by
   obtain ⟨m, k, s⟩ := l
   cases k <;> rfl
 
+theorem leafEvs_effect (l : Leaf) : (leafEvs l).filterMap Ev.effect? = l.effects := by
+  obtain ⟨m, k, s⟩ := l
+  cases k <;> rfl
+
+theorem evs_effect (ls : List Leaf) : (evs ls).filterMap Ev.effect? = effectsOf ls := by
+  rw [filterMap_evs]; simp only [leafEvs_effect]; rfl
 theorem evs_code (ls : List Leaf) : (evs ls).filterMap Ev.code? = codeOf ls := by
   rw [filterMap_evs]; simp only [leafEvs_code]; rfl
 theorem evs_define (ls : List Leaf) : (evs ls).filterMap Ev.define? = definedBy ls := by
